@@ -12,6 +12,7 @@ import (
 	"crypto/sha512"
 	"fmt"
 	"hash"
+	"math/big"
 	"runtime"
 	"sort"
 	"strings"
@@ -462,6 +463,19 @@ func verifTraceLeaks(prefix string) int { return 0 }
 func verifTraceClass(class string)      {}
 
 func verifBigHexDigits() []byte { return nil }
+
+// the decimal text (left-padded with zeros to declen digits) of the number with the given hex digits
+func verifDecimalOf(hex []byte, declen int) string {
+	v, ok := new(big.Int).SetString(string(hex), 16)
+	if !ok {
+		panic(verifAssumeFailed{})
+	}
+	d := v.Text(10)
+	if len(d) > declen {
+		panic(verifAssumeFailed{})
+	}
+	return strings.Repeat("0", declen-len(d)) + d
+}
 
 func verifIteI64(c bool, a, b int64) int64 {
 	if c {
